@@ -63,6 +63,14 @@ func judge(c Case, w *vkit.W) {
 		_, _ = size.DefaultFormatter([]byte("<b>"), s, size.FormatPretty|size.FormatHTML)
 		_, _ = s.MarshalJSON()
 		_, _ = s.MarshalText()
+		// other corners of the package are in use meanwhile: parsing, also of texts whose unit is nearly right
+		_, _ = size.New(5, "kib")
+		_, _ = size.New(7.0, "MB")
+		_, _ = size.DefaultParser("3 mb", 0)
+		_, _ = size.DefaultParser([]byte("1 KIB"), size.RuleDisableUnit)
+		_, _ = size.DefaultParser(`{"value":2,"unit":"Gib"}`, size.RuleEnableJSONObjectForm)
+		var tmp size.Size
+		_ = tmp.UnmarshalText([]byte("9 b"))
 	}
 	val, unit := s.Shorten()
 	k, known := binaryUnits[unit]
